@@ -66,7 +66,7 @@ def gen_value(ty, rng, i, pv=None, ctx=None):
     k = ty[0]
     R = {'UnsignedByte': (0, 255), 'Byte': (-128, 127), 'Short': (-32768, 32767), 'UnsignedShort': (0, 65535),
          'Integer': (-2 ** 31, 2 ** 31 - 1), 'Long': (-2 ** 63, 2 ** 63 - 1), 'UnsignedLong': (0, 2 ** 64 - 1),
-         'VarInt': (0, 2 ** 31 - 1), 'VarLong': (0, 2 ** 63 - 1)}
+         'VarInt': (0, 2 ** 32 - 1), 'VarLong': (0, 2 ** 64 - 1)}
     if k == 'Boolean':
         v = (i % 2 == 0) if i < 3 else rng.random() < 0.5
         return v, [0, 1 if v else 0]
@@ -76,8 +76,10 @@ def gen_value(ty, rng, i, pv=None, ctx=None):
     if k in ('Float', 'Double'):
         eb, mb = (8, 23) if k == 'Float' else (11, 52)
         tot = 1 + eb + mb
+        special = [((1 << eb) - 1) << mb, (((1 << eb) - 1) << mb) | (1 << (tot - 1)), (((1 << eb) - 2) << mb) | ((1 << mb) - 1), 1, (1 << mb) - 1, 1 << mb]
         while True:
-            bits = [0, ((1 << (eb - 1)) - 1) << mb, 1 << (tot - 1)][i] if i < 3 else rng.getrandbits(tot)
+            # i >= 3: now and then an infinity, the largest finite value, the smallest subnormal / largest subnormal / smallest normal
+            bits = [0, ((1 << (eb - 1)) - 1) << mb, 1 << (tot - 1)][i] if i < 3 else (rng.choice(special) if rng.random() < 0.15 else rng.getrandbits(tot))
             if not (((bits >> mb) & ((1 << eb) - 1)) == (1 << eb) - 1 and bits & ((1 << mb) - 1)):
                 break
         return codec.bits_float(bits, eb, mb), [1, bits]
